@@ -212,6 +212,28 @@ def defaults_failure(c):
     return None
 
 
+def gen_pixel_positions(rng):
+    """peak positions given as whole pixels in an integer dtype (the documented form of `centers` without `refineds`): a lattice whose
+    positions are within 0.3 px of whole pixels for the indices used, exact start parameters, tolerance 1 px"""
+    e1, e2, e3 = [float(v) for v in rng.choice([-0.05, -0.03, 0.03, 0.05], size=3)]
+    a = np.array([e1, 30.0 + e2])
+    b = np.array([30.0 + e3, 0.0])
+    if rng.integers(0, 2):
+        a, b = b, a
+    zero = np.array([float(rng.integers(70, 100)), float(rng.integers(70, 100))])
+    idx = np.array([(i, j) for i in range(-2, 3) for j in range(-2, 3)])
+    idx = idx[rng.permutation(len(idx))[:int(rng.integers(6, 26))]]
+    if np.linalg.matrix_rank(np.hstack([np.ones((len(idx), 1)), idx])) < 3:
+        idx = np.array([(i, j) for i in range(-2, 3) for j in range(-2, 3)])
+    exact = zero + idx @ np.array([a, b])
+    pos = np.rint(exact)
+    assert np.linalg.norm(pos - exact, axis=1).max() < 0.3        # 2 * 0.07 per term, two terms per component at most
+    dt = ['int64', 'int32', 'uint16', 'float64', 'int16'][int(rng.integers(0, 5))]
+    n = len(pos)
+    return dict(pos=pos.astype(dt), w=rng.uniform(0.5, 3.0, n), kinds=['inlier'] * n, true_idx=[tuple(int(v) for v in ij) for ij in idx], start=(zero, a, b), tol=1.0, mw=0.1, mm=3,
+                true=(zero, a, b), complete=True), dt
+
+
 def covariance_failure(c, rng):
     m0 = run_impl(c)
     th = rng.uniform(0, 2 * np.pi)
@@ -250,6 +272,13 @@ def adversarial(rng):
     out.append(('duplicates', dict(centers=np.repeat(base[:2], 4, axis=0), refineds=np.repeat(base[:2], 4, axis=0), peak_values=np.ones(8), peak_elevations=np.ones(8), zero=z, a=a, b=b)))
     col = z + np.array([(i, 0) for i in range(-3, 4)]) @ np.array([a, b])
     out.append(('collinear', dict(centers=col, refineds=col, peak_values=np.ones(7), peak_elevations=np.ones(7), zero=z, a=a, b=b)))
+    # a peak with a non-finite elevation (+inf passes the >= min_weight filter) on a far lattice position that only the second round picks up
+    # (order 6 with a start vector 0.2 px too long: 6 * 0.2 / sqrt(6) = 0.49 > tolerance 0.45): the final fit fails -- invalid match, no exception
+    far = np.vstack([base, z + 6 * a + 1 * b])
+    wf_ = np.append(w, np.inf)
+    out.append(('inf elevation picked up in round 2', dict(centers=far, refineds=far, peak_values=wf_, peak_elevations=wf_, zero=z, a=a + np.array([0.2, 0.0]), b=b, _matcher=dict(tolerance=0.45, min_weight=0.1, min_match=3))))
+    far2 = np.vstack([base, z - 5 * b + 1 * a])
+    out.append(('inf elevation picked up in round 2 (b)', dict(centers=far2, refineds=far2, peak_values=wf_, peak_elevations=wf_, zero=z, a=a, b=b + np.array([0.0, 0.22]), _matcher=dict(tolerance=0.45, min_weight=0.1, min_match=3))))
     out.append(('zero weights', dict(centers=base, refineds=base, peak_values=w * 0, peak_elevations=w * 0, zero=z, a=a, b=b)))
     out.append(('too few', dict(centers=base[:2], refineds=base[:2], peak_values=w[:2], peak_elevations=w[:2], zero=z, a=a, b=b)))
     return out
@@ -257,15 +286,17 @@ def adversarial(rng):
 
 def mk_replay(c, fail):
     return {'kind': 'input', 'call': 'Matcher.fastmatch', 'args': {'pos': c['pos'].tolist(), 'w': c['w'].tolist(), 'kinds': c['kinds'], 'true_idx': c['true_idx'],
-            'start': [v.tolist() for v in c['start']], 'tol': c['tol'], 'mw': c['mw'], 'mm': c['mm'], 'complete': bool(c.get('complete', True)), 'owed': c.get('owed')}, 'failure': fail}
+            'start': [v.tolist() for v in c['start']], 'tol': c['tol'], 'mw': c['mw'], 'mm': c['mm'], 'complete': bool(c.get('complete', True)), 'owed': c.get('owed'), 'pos_dtype': str(c['pos'].dtype)}, 'failure': fail}
 
 
 def adversarial_failure(desc):
     for d, kw in adversarial(np.random.default_rng(0)):
         if d != desc:
             continue
+        kw = dict(kw)
+        mk = kw.pop('_matcher', dict(tolerance=3, min_weight=0.1, min_match=3))
         try:
-            m = grm.Matcher(tolerance=3, min_weight=0.1, min_match=3).fastmatch(**kw)
+            m = grm.Matcher(**mk).fastmatch(**kw)
         except Exception as e:  # noqa
             return 'adversarial input (%s): fastmatch raised %s: %s' % (desc, type(e).__name__, e)
         okk = m.isnan() or (len(m.indices) == int(m.selector.sum()) and int(m.selector.sum()) >= 3)
@@ -285,7 +316,7 @@ def replay(body):
             print('VIOLATION property=C05 replay=(given)')
             return 1
         return 0
-    c = dict(pos=np.array(a['pos']), w=np.array(a['w']), kinds=a['kinds'], true_idx=[None if t is None else tuple(t) for t in a['true_idx']],
+    c = dict(pos=np.array(a['pos'], dtype=a.get('pos_dtype', 'float64')), w=np.array(a['w']), kinds=a['kinds'], true_idx=[None if t is None else tuple(t) for t in a['true_idx']],
              start=tuple(np.array(v) for v in a['start']), tol=a['tol'], mw=a['mw'], mm=a['mm'], complete=a.get('complete', True), owed=a.get('owed'))
     fail = defaults_failure(c) if a.get('defaults') else stmt_failure(c)
     print(json.dumps({'failure_now': fail}, indent=1))
@@ -403,6 +434,16 @@ def run(ctx):
                 break
         if fail:
             ctx.violation('input', fail, mk_replay(c, fail), signature='fastmatch: valid match with fewer than min_match points' if 'min_match' in fail and 'valid match with' in fail else fail)
+            break
+    # whole-pixel positions in integer dtypes
+    for k in range(ctx.n(40, 400)):
+        c, dt = gen_pixel_positions(rng)
+        fail = stmt_failure(c)
+        ctx.count(1)
+        ctx.hist('pixel positions dtype', dt)
+        if fail:
+            fail = 'peak positions given as %s: %s' % (dt, fail)
+            ctx.violation('input', fail, mk_replay(c, fail))
             break
     # min_match threshold stream: few inliers, many near-misses
     for k in range(ctx.n(300, 3000)):
